@@ -271,7 +271,15 @@ fn flag(rng: &mut Rng, perm: bool) -> String {
     match rng.below(6) {
         0 if perm => "\\*".into(),
         0..=2 => format!("\\{}", atom(rng)),
-        3 => "\\Seen".into(),
+        3 => {
+            // a system flag, in any letter case (the case a server sent is part of the value)
+            let f = *rng.pick(&["\\Seen", "\\Answered", "\\Flagged", "\\Deleted", "\\Draft", "\\Recent"]);
+            if rng.chance(1, 2) {
+                f.chars().map(|c| if rng.chance(1, 2) { c.to_ascii_uppercase() } else { c.to_ascii_lowercase() }).collect()
+            } else {
+                f.to_string()
+            }
+        }
         _ => astring_atom(rng),
     }
 }
